@@ -45,6 +45,14 @@ def build(spec):
     if spec["kind"] == "atoms5":
         syms, frac = five_atoms(spec["seed"])
         return xtal.make_crystal(spec["number"], spec["choice"], tuple(spec["cell"]), syms, frac)
+    if spec["kind"] == "grid":
+        # a cell of realistic size: n^3 atoms (C, O, N in turn) on a jittered grid of 2.2 A spacing in P1 - slabs of such cells run to
+        # hundreds of thousands of rows at ordinary radii
+        n = spec["n"]
+        k = np.arange(n ** 3)
+        base = np.array(list(itertools.product(range(n), repeat=3)), dtype=float)
+        frac = (base + 0.5 + 0.2 * np.c_[np.sin(1.0 + 1.7 * k), np.cos(2.0 + 2.3 * k), np.sin(3.0 + 0.7 * k)]) / n
+        return xtal.make_crystal(1, "", (2.2 * n, 2.2 * n, 2.2 * n, 90.0, 90.0, 90.0), [("C", "O", "N")[i % 3] for i in k], frac)
     if spec["kind"] == "file":
         from chmpy.crystal import Crystal
 
@@ -375,6 +383,10 @@ def run(ctx):
             specs.append({"kind": "atoms5", "number": n, "choice": ch, "cell": list(cell), "seed": seed,
                           "radii": list(RADII) + [round(min(2.5 * max(cell[:3]), 20.0), 3)],
                           "queries": ["point", "atomic"], "label": "atoms5:%d:%s:oblique%s" % (n, ch, cell[3:])})
+    # (1b) realistic sizes: slabs beyond 2^16 and 2^18 rows - a 1728-atom cell at 12 .. 30 A, a 30-atom rhombohedral cell at 35 A
+    specs.append({"kind": "grid", "n": 12, "radii": [12.0, 20.0, 30.0], "queries": ["point"], "label": "grid:12^3"})
+    specs.append({"kind": "atoms5", "number": 148, "choice": "R", "cell": list(lattice.compatible_cells(148, "R")[1]), "seed": seed, "radii": [35.0],
+                  "queries": ["point"], "label": "atoms5:148:R:long-radius"})
     # (2) bundled structures: all queries
     for f in ("iceII.cif", "acetic_acid.cif", "r3c_example.cif"):
         specs.append({"kind": "file", "path": TEST_FILES + f, "radii": [1.2, 3.8, 6.0, 12.0],
